@@ -323,6 +323,24 @@ func toFloatList(value any) ([]float64, error) {
 		return ret, nil
 	case []float64:
 		return val, nil
+	case []any:
+		// The list of a JSON document: numbers (or texts that spell a number)
+		ret := make([]float64, len(val))
+		for i := 0; i < len(val); i++ {
+			switch item := val[i].(type) {
+			case float64:
+				ret[i] = item
+			case string:
+				fval, err := strconv.ParseFloat(item, 64)
+				if err != nil {
+					return nil, err
+				}
+				ret[i] = fval
+			default:
+				return nil, fmt.Errorf("Cannot convert to float list")
+			}
+		}
+		return ret, nil
 	default:
 		return nil, fmt.Errorf("Cannot convert to float list")
 	}
